@@ -486,6 +486,16 @@ func (p *parser) varList(stop string) ([]Var, error) {
 	return out, nil
 }
 
+// ParseType parses a type written as in a contract ("[]any", "*T", "map[string]any", "pkg.T").
+func ParseType(src string) (TypeExpr, error) {
+	toks, err := lex(src)
+	if err != nil {
+		return TypeExpr{}, err
+	}
+	p := &parser{toks: toks}
+	return p.typeExpr()
+}
+
 func (p *parser) typeExpr() (TypeExpr, error) {
 	if p.accept("*") {
 		e, err := p.typeExpr()
